@@ -1,4 +1,5 @@
 import Driver.Util
+import Driver.Wf
 import DoviModel.Model.Json
 import DoviModel.Model.Esc
 namespace Driver.RpuOps
@@ -30,6 +31,8 @@ def run : List String → String
   | ["nalu.json", h] => resJson (parseNalu (unhex h))
   | ["rpu.write", h] => resWrite (parseRpuEntry (unhex h)) writeRpu
   | ["nalu.write", h] => resWrite (parseNalu (unhex h)) writeNalu
+  | ["rpu.wf", h] => (match parseRpuEntry (unhex h) with | .ok r => Driver.wfLine r | .error => "err" | .panic => "panic")
+  | ["nalu.wf", h] => (match parseNalu (unhex h) with | .ok r => Driver.wfLine r | .error => "err" | .panic => "panic")
   | ["rpu.class", h] => (match parseRpuEntry (unhex h) with | .ok _ => "ok" | .error => "err" | .panic => "panic")
   | ["c08.rpu", h] => cls (parseRpuEntry (unhex h))
   | ["c08.nalu", h] => cls (parseNalu (unhex h))
